@@ -1916,6 +1916,12 @@ class Program:
                 if any("&mut" in x for x in lf.get("sig", {}).get("inputs", [])):
                     return None
                 return self._apply_local(an, st, lf, list(argvals), effects)
+            # `Some` / `Ok` / `Err` used as functions (`.map(Some)`)
+            core_ctor = {"option::Option::Some": ("option::Option", 1, "Some"), "result::Result::Ok": ("result::Result", 0, "Ok"),
+                         "result::Result::Err": ("result::Result", 1, "Err")}
+            for k_, (own_, i_, vn_) in core_ctor.items():
+                if q in (k_, k_ + "::" + vn_) and len(argvals) == 1:
+                    return T.agg("adt", own_, i_, vn_, list(argvals))
             # tuple-variant / tuple-struct constructor used as a function
             owner, _, vn = q.rpartition("::")
             if F.adts.get(owner) is None and owner.endswith("::" + vn):
